@@ -34,10 +34,15 @@ Proof. reflexivity. Qed.
 Lemma style_tag_filter_app : forall a b, style_tag_filter (a ++ b) = style_tag_filter a ++ style_tag_filter b.
 Proof. intros. unfold style_tag_filter. apply flat_map_app. Qed.
 
-(* non-vacuity: style="color:red;top:0" -> only color survives; title with a quote is escaped *)
+(* non-vacuity: style="p:red;x--verif-never:0" (p = first allow-listed property) -> only p survives;
+   a title holding a double quote is escaped *)
 Example filter_example :
-  filter_item (Tag [112] [Attr [115;116;121;108;101] [] [(tok_ident, [99;111;108;111;114]); (tok_char, [58]); (tok_ident, [114;101;100]); (tok_char, [59]);
-                                                         (tok_ident, [116;111;112]); (tok_char, [58]); (6, [48]); (tok_eof, [])];
-                         Attr [116;105;116;108;101] [97;34;98] []] false)
-  = [60;112; 32;115;116;121;108;101;61;34; 99;111;108;111;114;58;114;101;100;59; 34; 32;116;105;116;108;101;61;34; 97;38;35;51;52;59;98; 34; 62].
+  match allowed_properties with
+  | p :: _ =>
+    filter_item (Tag [112] [Attr [115;116;121;108;101] [] [(tok_ident, p); (tok_char, [58]); (tok_ident, [114;101;100]); (tok_char, [59]);
+                                                           (tok_ident, never_allowed); (tok_char, [58]); (6, [48]); (tok_eof, [])];
+                           Attr [116;105;116;108;101] [97;34;98] []] false)
+    = [60;112; 32;115;116;121;108;101;61;34] ++ p ++ [58;114;101;100;59; 34; 32;116;105;116;108;101;61;34; 97;38;35;51;52;59;98; 34; 62]
+  | [] => True
+  end.
 Proof. vm_compute. reflexivity. Qed.
